@@ -4,7 +4,8 @@ open Memento.Version Memento.VersionCache Driver
 
 /-! Line protocol for the in-process version cache model.
   reset
-  dm NAME auto|HEX TOK REFS…   (re)define a memento function      -> index of its instance
+  dm NAME auto|HEX TOK REFS…   (re)define a memento function      -> index of its instance | refused (cluster locked)
+  lock 0|1                     cluster.locked = …
   dp NAME TOK REFS…            (re)define a plain function
   df NAME TOK                  bind NAME to a plain function of another package
   sv NAME VALTOK               bind a variable
@@ -28,7 +29,7 @@ def stepLine (s : St) (t : List String) : St × String :=
     match nat? n, nat? tok, refs.mapM nat?, (if e = "auto" then some none else (unhex e).map some) with
     | some n, some tok, some refs, some e =>
       let s' := (step H s (.defMemento n e tok refs)).1
-      (s', toString (s'.insts.length - 1))
+      (s', if s'.insts.length = s.insts.length then "refused" else toString (s'.insts.length - 1))
     | _, _, _, _ => (s, "bad-op")
   | "dp" :: n :: tok :: refs =>
     match nat? n, nat? tok, refs.mapM nat? with
@@ -65,6 +66,10 @@ def stepLine (s : St) (t : List String) : St × String :=
   | ["fresh", n] =>
     match nat? n with
     | some n => (s, String.ofList (effectiveVersion H (progOf s.sym) id n))
+    | none => (s, "bad-op")
+  | ["lock", b] =>
+    match nat? b with
+    | some b => ((step H s (.lock (b != 0))).1, "ok")
     | none => (s, "bad-op")
   | ["gen"] => (s, toString s.gen)
   | _ => (s, "bad-op")
